@@ -279,7 +279,7 @@ func LoadPackage(dir string) (*PackageInfo, error) {
 func loadPackageVersion(dir string) (*PackageInfo, error) {
 	pkgsCollected := make(map[string]*PackageInfo)
 	importChain := make(map[string]bool)
-	packageInfo, err := collectPackages(dir, pkgsCollected, importChain, MaxImportRecursionDepth)
+	packageInfo, err := collectPackages(dir, pkgsCollected, importChain, make(map[*PackageInfo]int), MaxImportRecursionDepth)
 	if err != nil {
 		return packageInfo, err
 	}
@@ -331,8 +331,9 @@ func readPackageInfo(directory string) (*PackageInfo, error) {
 // Recursively collects all packages starting with parentDir, building an Import tree of *PackageInfo
 // alreadyCollected is used to check for namespace conflicts (e.g. same namespace but different package directory)
 // importChain is used to check for import cycles
+// heights records, for every collected package, the number of packages on the longest import chain that starts with it
 // depthRemaining is used to limit the depth of the import tree
-func collectPackages(parentDir string, alreadyCollected map[string]*PackageInfo, importChain map[string]bool, depthRemaining int) (*PackageInfo, error) {
+func collectPackages(parentDir string, alreadyCollected map[string]*PackageInfo, importChain map[string]bool, heights map[*PackageInfo]int, depthRemaining int) (*PackageInfo, error) {
 	parentInfo, err := readPackageInfo(parentDir)
 	if err != nil {
 		return nil, err
@@ -353,11 +354,17 @@ func collectPackages(parentDir string, alreadyCollected map[string]*PackageInfo,
 		if collected.FilePath != parentInfo.FilePath && !isSameFile(collected.FilePath, parentInfo.FilePath) {
 			return collected, validation.NewValidationError(fmt.Errorf("namespace '%s' conflicts with '%s'", parentInfo.Namespace, collected.FilePath), parentInfo.FilePath)
 		} else {
+			// The package was collected through a shorter path before. The chain below it
+			// is not walked again, but it counts from here as well.
+			if heights[collected] > depthRemaining {
+				return collected, validation.NewValidationError(errors.New("reached maximum number of recursive imports"), parentInfo.FilePath)
+			}
 			return collected, nil
 		}
 	}
 
 	alreadyCollected[parentInfo.Namespace] = parentInfo
+	heights[parentInfo] = 1
 
 	log.Info().Msgf("Collecting imports for %v", parentInfo.PackageDir())
 	var importUrls []string
@@ -371,11 +378,14 @@ func collectPackages(parentDir string, alreadyCollected map[string]*PackageInfo,
 
 	for i, dir := range dirs {
 		importChain[parentInfo.Namespace] = true
-		childInfo, err := collectPackages(dir, alreadyCollected, importChain, depthRemaining-1)
+		childInfo, err := collectPackages(dir, alreadyCollected, importChain, heights, depthRemaining-1)
 		if err != nil {
 			return parentInfo, err
 		}
 		importChain[parentInfo.Namespace] = false
+		if heights[childInfo]+1 > heights[parentInfo] {
+			heights[parentInfo] = heights[childInfo] + 1
+		}
 
 		// Build the Import tree
 		parentInfo.Imports[i].Package = childInfo
